@@ -227,9 +227,20 @@ def variants(case, st):
             if rb["attrs"]["res"] is None:
                 del rb["attrs"]["res"]
         rb["data"] = np.roll(rb["data"], (1, 2), axis=(0, 1)).copy()
+        if b.get("pair") and not in_domain(dict(b, params=b["pair"]["params"])):
+            del b["pair"]
         if in_domain(b):
             out.append((b, True))
     return out
+
+
+def valid(case):
+    """The property's stated domain (used by the minimiser: a shrunk case must stay inside it)."""
+    if not in_domain(case):
+        return False
+    if case.get("pair") and not in_domain(dict(case, params=case["pair"]["params"])):
+        return False
+    return True
 
 
 def compare(case, got, want):
